@@ -383,6 +383,10 @@ pub fn run(ctx: &RunCtx) -> i32 {
                 let ak = if g.chance(3, 4) { AK } else { AK2 };
                 let p = V4Params { access_key: ak.into(), secret: secrets[ak].clone(), amz_date: unix_to_amz_date(now_unix() + delta), region: "us-east-1".into(), service: "s3".into() };
                 v4_presign(&mut req, &p, expires, &signed);
+                // one URL in five is used over HTTP/2: no Host header, the authority (with its port) in the target
+                if g.chance(1, 5) {
+                    to_http2(&mut req);
+                }
                 let case = Case { req: req.clone(), op: "base".into(), source: "reference".into(), secrets: secrets.clone() };
                 judge(&rt, r, &case);
                 r.sample("reference-url", || json!({"method": req.method, "uri": req.uri, "delta_s": delta, "expires": expires}));
